@@ -307,6 +307,9 @@ def mon_c09(h):
     counts = {}
     for e in h.kinds("UNSUB"):
         counts[int(e["f"][0])] = counts.get(int(e["f"][0]), 0) + 1
+        s = int(e["f"][0])
+        if s in ret_un and e["i"] > ret_un[s]:
+            bad.append(("silent-after-unsubscribe", "subscriber %d received on_unsubscribe after its unsubscribe() had returned" % s))
     for s, n in counts.items():
         if n > 1:
             bad.append(("released-once", "subscriber %d got on_unsubscribe %d times" % (s, n)))
@@ -345,6 +348,17 @@ def mon_c10(h):
         got2 = [g for g in got if g[1] in reduced]
         if not all(any(g == x for x in it) for g in got2):
             bad.append(("subsequence", "channeled subscriber %d received %s, not an in-order subsequence of %s" % (s, got2[:6], expect[:6])))
+        # a subscriber attached for the whole run, once stop() has returned: the blocking policy
+        # delivered the whole stream, DropOldest delivered at least the newest notification
+        # (histories with vetoed actions are left out: whether those notify is unspecified)
+        whole_run = any(s == s0 and k == "chan" for s0, k, _ in h.sc["subs"]) and \
+            not any(e["kind"] == "INV" and e["f"][0] == "un:%d" % s for e in h.ev)
+        no_veto = not any(e["f"][3] == "D" for e in h.kinds("BR"))
+        if whole_run and no_veto and stop_ret(h) is not None and len(args) >= 2:
+            if args[1] == "block" and got != expect:
+                bad.append(("complete", "channeled subscriber %d (blocking) received %s, the notifying actions were %s" % (s, got[:8], expect[:8])))
+            if args[1] == "oldest" and expect and (not got or got[-1] != expect[-1]):
+                bad.append(("newest", "channeled subscriber %d (DropOldest) did not receive the newest notification %s (last received: %s)" % (s, expect[-1], got[-1:] )))
         # nothing after unsubscribe / stop returned
         for op in ("un:%d" % s, "stop", "drop"):
             for r in h.ret_index(op)[:1]:
